@@ -73,6 +73,37 @@ class Facts:
         for m in self.templates["macros"]:
             self._tmpl_ix["%s:%d:%d" % (m["file"], m["line"], m["col"])] = m
         self.stamp = json.load(open(os.path.join(self.dir, "STAMP")))
+        if os.environ.get("VERIF_RENAME_LOCALS"):
+            # metamorphic self-test: alpha-rename every local variable (and therefore every template hole) in the
+            # fact base; no verdict may change. Never set by the registered checks.
+            self._rename_locals(os.environ["VERIF_RENAME_LOCALS"])
+
+    def _rename_locals(self, suffix):
+        import re as _re
+
+        def f(name):
+            return name if name in ("self", "_") else name + suffix
+
+        for c in self.crates.values():
+            for h in list(c.hir.values()):
+                for n, _ in walk(h):
+                    k = n.get("k")
+                    if k == "bind":
+                        n["name"] = f(n["name"])
+                    elif k == "path" and n.get("res") == "local":
+                        n["path"] = f(n["path"])
+
+        def ren_tt(tt):
+            for t in tt:
+                if t["t"] == "hole":
+                    t["name"] = f(t["name"])
+                elif t["t"] in ("group", "rep"):
+                    ren_tt(t["body"])
+
+        for m in self.templates["macros"]:
+            if "tt" in m and m["name"] in ("quote", "quote_spanned"):
+                ren_tt(m["tt"])
+                m["text"] = _re.sub(r"# (\w+)", lambda mm: "# " + f(mm.group(1)), m["text"])
 
     def __getitem__(self, k):
         return self.crates[k]
@@ -332,7 +363,7 @@ class Report:
         unlisted = [o for o in viol if o["key"] not in kf]
         listed = [o for o in viol if o["key"] in kf]
         evdir = os.path.join(VERIF, "evidence")
-        if os.path.abspath(REPO) != "/repo":
+        if os.path.abspath(REPO) != "/repo" or os.environ.get("VERIF_RENAME_LOCALS"):
             # a scratch copy is being analysed (selftest): never touch the evidence of the real tree
             evdir = os.path.join(extract.CACHE, "evidence-" + os.path.basename(extract.facts_dir()))
         os.makedirs(os.path.join(evdir, "replay"), exist_ok=True)
@@ -657,3 +688,318 @@ def norm_arm(arm):
         return s
 
     return (sub(psrc(arm["pat"])).replace(" ", ""), sub(src(arm["guard"])) if arm.get("guard") else "", sub(src(block_last(arm["body"]))))
+
+
+# --------------------------------------------------------------------------- name-independent rendering
+def scope_binding(h, anc, name, before):
+    """The in-scope binder of local `name` for a use whose ancestor chain is `anc` (scope-aware, shadowing-aware).
+    ('let', let_stmt, tuple_index|None) | ('pat', scrutinee, pattern_node) | ('closure', closure, parent, param_index) | ('param', index) | None"""
+    chain = list(anc)
+    for i in range(len(chain) - 1, -1, -1):
+        a = chain[i]
+        child = chain[i + 1] if i + 1 < len(chain) else before
+        k = a.get("k")
+        if k == "block":
+            stmts = a.get("stmts", [])
+            ix = len(stmts)
+            for j, st in enumerate(stmts):
+                if st is child:
+                    ix = j
+                    break
+            for st in reversed(stmts[:ix]):
+                if st.get("k") == "let":
+                    p = st["pat"]
+                    if p.get("k") == "bind" and p["name"] == name:
+                        return ("let", st, None)
+                    if p.get("k") == "tuple":
+                        for ti, pp in enumerate(p["pats"]):
+                            if pp.get("k") == "bind" and pp["name"] == name:
+                                return ("let", st, ti)
+                    if any(b.get("k") == "bind" and b["name"] == name for b, _ in walk(p)):
+                        return ("pat", st.get("init"), p)
+        elif k == "closure":
+            for pi, p in enumerate(a.get("params", [])):
+                if any(b.get("k") == "bind" and b["name"] == name for b, _ in walk(p)):
+                    return ("closure", a, chain[i - 1] if i > 0 else {}, pi)
+        elif k is None and "pat" in a and "body" in a:
+            if child is a["body"] or child is a.get("guard"):
+                if any(b.get("k") == "bind" and b["name"] == name for b, _ in walk(a["pat"])):
+                    m = chain[i - 1] if i > 0 else {}
+                    return ("pat", m.get("scrut"), a["pat"])
+        elif k == "if" and a["cond"].get("k") == "letx" and child is a["then"]:
+            if any(b.get("k") == "bind" and b["name"] == name for b, _ in walk(a["cond"]["pat"])):
+                return ("pat", a["cond"]["init"], a["cond"]["pat"])
+        elif k == "bin" and a.get("op") == "And" and child is a.get("r"):
+            # `let PAT = e && use`
+            for x, _ in walk(a.get("l")):
+                if x.get("k") == "letx" and any(b.get("k") == "bind" and b["name"] == name for b, _ in walk(x["pat"])):
+                    return ("pat", x["init"], x["pat"])
+    for pi, p in enumerate(h.get("params", [])):
+        if any(b.get("k") == "bind" and b["name"] == name for b, _ in walk(p)):
+            return ("param", pi)
+    return None
+
+
+def pat_projection(p, name):
+    """Path from the root of a pattern to the binder of `name`: '.field', '.0', '?Variant'."""
+    k = p.get("k")
+    if k == "bind":
+        if p["name"] == name:
+            return ""
+        if p.get("sub"):
+            return pat_projection(p["sub"], name)
+        return None
+    if k == "struct":
+        for fname, fp in p["fields"]:
+            r = pat_projection(fp, name)
+            if r is not None:
+                v = p["path"].split("::")[-1]
+                return "~%s.%s%s" % (v, fname, r)
+        return None
+    if k == "tstruct":
+        for i, fp in enumerate(p["pats"]):
+            r = pat_projection(fp, name)
+            if r is not None:
+                v = p["path"].split("::")[-1]
+                return "~%s%s%s" % (v, "" if len(p["pats"]) == 1 else ".%d" % i, r)
+        return None
+    if k in ("tuple", "slice"):
+        for i, fp in enumerate(p["pats"]):
+            r = pat_projection(fp, name)
+            if r is not None:
+                return ".%d%s" % (i, r)
+        return None
+    if k == "or":
+        for fp in p["pats"]:
+            r = pat_projection(fp, name)
+            if r is not None:
+                return r
+    return None
+
+
+class Canon:
+    """Renders expressions with local variable names replaced by what they are bound to, so that a rule's
+    expectation survives renaming of locals, extraction of a `let`, or of a one-expression helper fn."""
+
+    def __init__(self, crate, h, max_depth=5):
+        self.c = crate
+        self.h = h
+        self.max_depth = max_depth
+        self.anc = {}
+        for n, a in walk(h["body"]):
+            self.anc[id(n)] = a
+
+    def ancestors(self, node):
+        return self.anc.get(id(node), ())
+
+    def param_name(self, idx):
+        f = self.c.fns.get(self.h["fn"], {})
+        tys = f.get("inputs", [])
+        p = self.h.get("params", [])
+        if idx < len(p) and p[idx].get("k") == "bind" and p[idx]["name"] == "self":
+            return "self"
+        t = tys[idx] if idx < len(tys) else "?"
+        t = re_sub_lifetimes(t)
+        import re as _re
+        t = _re.sub(r"\b(?:[a-z_][a-z0-9_]*::)+", "", t)
+        return "$" + t
+
+    def local(self, node, depth, env):
+        name = node["path"]
+        if env and name in env:
+            return env[name]
+        b = scope_binding(self.h, self.ancestors(node), name, node)
+        if b is None:
+            return name
+        if b[0] == "param":
+            return self.param_name(b[1])
+        if depth >= self.max_depth:
+            import re as _re
+            return "$" + _re.sub(r"\b(?:[a-z_][a-z0-9_]*::)+", "", re_sub_lifetimes(self.c.ty(node.get("ty")) or name)).replace("&", "")
+        if b[0] == "let":
+            init = b[1].get("init")
+            if init is not None and b[2] is None and src(init) in ("Vec::new()", "Vec<T>::new()", "vec!()"):
+                # a vector filled by pushes: what is pushed is what it holds
+                pushed = []
+                for x, xa in walk(self.h["body"]):
+                    if x.get("k") == "mcall" and x["name"] == "push" and x.get("args") and isinstance(x["recv"], dict):
+                        rv = strip_refs(x["recv"])
+                        if rv.get("k") == "path" and rv.get("res") == "local" and rv["path"] == name:
+                            bb = scope_binding(self.h, self.ancestors(rv), name, rv)
+                            if bb and bb[0] == "let" and bb[1] is b[1]:
+                                pushed.append(self.r(x["args"][0], depth + 1, env))
+                return "vec[%s]" % " | ".join(pushed)
+            s = self.r(init, depth + 1, env)
+            return "%s%s" % (s, "" if b[2] is None else ".%d" % b[2])
+        if b[0] == "pat":
+            proj = pat_projection(b[2], name)
+            return "%s%s" % (self.r(b[1], depth + 1, env), proj if proj is not None else "~?")
+        if b[0] == "closure":
+            par = b[2]
+            proj = pat_projection(b[1]["params"][b[3]], name) or ""
+            if par.get("k") == "mcall":
+                return "elem<%s>%s" % (self.r(par["recv"], depth + 1, env), proj)
+            return "$closure%d%s" % (b[3], proj)
+        return name
+
+    def r(self, n, depth=0, env=None):
+        if n is None:
+            return ""
+        if isinstance(n, list):
+            return ", ".join(self.r(x, depth, env) for x in n)
+        if not isinstance(n, dict):
+            return "…"
+        k = n.get("k")
+        if k == "path" and n.get("res") == "local":
+            return self.local(n, depth, env)
+        if k == "path":
+            return short(n.get("path", ""))
+        if k == "lit":
+            return src(n)
+        if k == "field":
+            return "%s.%s" % (self.r(n["e"], depth, env), n["name"])
+        if k == "mcall":
+            recv = self.r(n["recv"], depth, env)
+            if n["name"] in ("clone", "as_ref", "as_str", "as_deref", "to_owned", "borrow") and not n.get("args"):
+                return recv
+            return "%s.%s(%s)" % (recv, n["name"], self.r(n.get("args", []), depth, env))
+        if k == "call":
+            fn = n.get("fn")
+            # inline one-expression helpers of the same crate
+            if fn and fn in self.c.hir and depth < self.max_depth and n.get("res") in ("fn", "assocfn"):
+                ch = self.c.hir[fn]
+                body = ch.get("body", {})
+                if body.get("k") == "block" and not body.get("stmts") and body.get("tail") is not None and len(ch.get("params", [])) == len(n.get("args", [])):
+                    sub = Canon(self.c, ch, self.max_depth)
+                    env2 = {}
+                    for p, a in zip(ch["params"], n["args"]):
+                        if p.get("k") == "bind":
+                            env2[p["name"]] = self.r(a, depth + 1, env)
+                    if len(env2) == len(ch["params"]):
+                        return sub.r(body["tail"], depth + 1, env2)
+            f = short(fn) if fn else self.r(n.get("f"), depth, env)
+            return "%s(%s)" % (f, self.r(n.get("args", []), depth, env))
+        if k == "ref":
+            return self.r(n["e"], depth, env)
+        if k == "un":
+            if n.get("op") == "Deref":
+                return self.r(n["e"], depth, env)
+            return "%s%s" % ({"Not": "!", "Neg": "-"}.get(n.get("op"), n.get("op", "")), self.r(n["e"], depth, env))
+        if k == "bin":
+            return "(%s %s %s)" % (self.r(n["l"], depth, env), n["op"], self.r(n["r"], depth, env))
+        if k == "macro":
+            return "%s!(%s)" % (n["name"], self.r(n.get("args", []), depth, env))
+        if k == "struct":
+            return "%s{%s}" % (short(n["path"]), ", ".join("%s: %s" % (f[0], self.r(f[1], depth, env)) for f in n.get("fields", [])))
+        if k == "block":
+            parts = [self.r(x, depth, env) for x in n.get("stmts", []) if x.get("k") != "let"]
+            if n.get("tail") is not None:
+                parts.append(self.r(n["tail"], depth, env))
+            return "{ %s }" % "; ".join(parts) if len(parts) != 1 else parts[0]
+        if k == "ret":
+            return "return %s" % self.r(n.get("e"), depth, env)
+        if k in ("let",):
+            return ""
+        if k == "letx":
+            return "let %s = %s" % (cpat(n["pat"]), self.r(n.get("init"), depth, env))
+        if k == "if":
+            return "if %s %s else %s" % (self.r(n["cond"], depth, env), self.r(n["then"], depth, env), self.r(n.get("else"), depth, env))
+        if k == "match":
+            if n.get("src") == "try":
+                inner = n["scrut"].get("args", [None])[0] if n["scrut"].get("k") == "call" else n["scrut"]
+                return "%s?" % self.r(inner, depth, env)
+            return "match %s { %s }" % (self.r(n["scrut"], depth, env), " | ".join("%s%s => %s" % (cpat(a["pat"]), (" if " + self.r(a["guard"], depth, env)) if a.get("guard") else "", self.r(a["body"], depth, env)) for a in n["arms"]))
+        if k == "closure":
+            return "|..| %s" % self.r(n["body"], depth, env)
+        if k == "index":
+            return "%s[%s]" % (self.r(n["e"], depth, env), self.r(n["i"], depth, env))
+        if k == "tup":
+            return "(%s)" % self.r(n.get("es", []), depth, env)
+        if k == "array":
+            return "[%s]" % self.r(n.get("es", []), depth, env)
+        if k == "cast":
+            return self.r(n["e"], depth, env)
+        if k in ("assign", "assignop"):
+            return "%s %s %s" % (self.r(n["l"], depth, env), n.get("op", "="), self.r(n["r"], depth, env))
+        return "<%s>" % k
+
+
+def cpat(p):
+    """Pattern rendering with binder names erased."""
+    if not isinstance(p, dict):
+        return "?"
+    k = p.get("k")
+    if k in ("wild", "bind"):
+        if k == "bind" and p.get("sub"):
+            return cpat(p["sub"])
+        return "_"
+    if k == "struct":
+        return "%s{%s%s}" % (short(p["path"]), ", ".join("%s: %s" % (f[0], cpat(f[1])) for f in p["fields"]), ", .." if p.get("rest") else "")
+    if k == "tstruct":
+        return "%s(%s)" % (short(p["path"]), ", ".join(cpat(x) for x in p["pats"]))
+    if k == "path":
+        return short(p["path"])
+    if k == "or":
+        return " | ".join(cpat(x) for x in p["pats"])
+    if k in ("tuple", "slice"):
+        return "(%s)" % ", ".join(cpat(x) for x in p["pats"])
+    if k == "lit":
+        return psrc(p)
+    return "<%s>" % k
+
+
+def re_sub_lifetimes(t):
+    import re as _re
+    return _re.sub(r"'[a-z_]+ ?", "", t).replace("&mut ", "&mut ").strip()
+
+
+def option_branch(n):
+    """Normalise `if let Some(x) = E {A} else {B}` and `match E { Some(x) => A, None|_ => B }`:
+    returns (scrutinee, some_pattern, some_body, none_body) or None."""
+    if not isinstance(n, dict):
+        return None
+    if n.get("k") == "if" and n["cond"].get("k") == "letx":
+        p = n["cond"]["pat"]
+        if p.get("k") == "tstruct" and p["path"].endswith("::Some"):
+            return (n["cond"]["init"], p, n["then"], n.get("else"))
+    if n.get("k") == "match" and n.get("src") == "normal":
+        some = none = None
+        for a in n["arms"]:
+            p = a["pat"]
+            if p.get("k") == "tstruct" and p["path"].endswith("::Some") and a.get("guard") is None:
+                some = a
+            elif (p.get("k") == "path" and p["path"].endswith("::None")) or p.get("k") == "wild":
+                none = a
+        if some is not None and none is not None and len(n["arms"]) == 2:
+            return (n["scrut"], some["pat"], some["body"], none["body"])
+    return None
+
+
+def cguards(cn, anc, node, rolemap=None):
+    """Like lib.guards but with conditions rendered name-independently (Canon) and let-names mapped to roles."""
+    out = []
+    chain = list(anc) + [node]
+    for i, a in enumerate(chain[:-1]):
+        child = chain[i + 1]
+        k = a.get("k")
+        if k is None and "pat" in a and "body" in a:
+            if child is a["body"]:
+                scrut = ""
+                if i > 0 and chain[i - 1].get("k") == "match":
+                    if chain[i - 1].get("src") in ("for", "try"):
+                        continue
+                    scrut = cn.r(chain[i - 1]["scrut"])
+                out.append(("arm", cpat(a["pat"]), cn.r(a.get("guard")) if a.get("guard") else "", scrut))
+        elif k == "if":
+            if child is a["then"]:
+                out.append(("if", cn.r(a["cond"])))
+            elif child is a.get("else"):
+                out.append(("else", cn.r(a["cond"])))
+        elif k == "mcall" and isinstance(child, dict) and child.get("k") == "closure" and child is not a.get("recv"):
+            out.append(("adaptor", a["name"], cn.r(a["recv"])))
+        elif k == "let" and child is a.get("init"):
+            names = [b["name"] for b, _ in walk(a["pat"]) if b.get("k") == "bind"]
+            out.append(("let", ",".join((rolemap or {}).get(x, x) for x in names)))
+    return out
+
+
